@@ -198,8 +198,9 @@ func (t *Topic) procPresReq(fromUserID, what string, wantReply bool) string {
 				// If the connection is not enabled, ignore the update.
 				what = ""
 			}
-		} else {
-			// Not in list and asked to be removed from the list - ignore
+		} else if what != "gone" {
+			// Not in list and asked to be removed from the list - ignore.
+			// The removal notice itself ('gone') is still forwarded to the sessions.
 			what = ""
 		}
 	}
